@@ -899,6 +899,17 @@ def _has_explicit_exit(n):
     return any(_has_explicit_exit(v) for v in n.values() if isinstance(v, (dict, list)))
 
 
+def _reads_mutated(init, mut):
+    """does the initialiser read a local that is assigned or mutably borrowed somewhere in the function?  Its value at the
+    `let` may differ from its value where the name is used (`let n = v.len(); v.clear(); .. n ..`), so the name is kept"""
+    if not mut:
+        return False
+    for x in walk(init):
+        if x.get("k") == "path" and x.get("res", {}).get("r") == "local" and x["res"].get("id") in mut:
+            return True
+    return False
+
+
 def unlet(n, env=None, _mut=None):
     """copy of n in which immutable single-assignment locals (`let x = e;`) are replaced by their initialisers and the `let`
     removed — a normal form for data-flow rules that should not depend on which intermediate values were given names.
@@ -928,7 +939,8 @@ def unlet(n, env=None, _mut=None):
             pat = st.get("pat", {}) if st.get("k") == "let" else {}
             if st.get("k") == "let" and pat.get("k") == "bind" and "sub" not in pat and st.get("init") is not None and st.get("els") is None \
                     and "Mut" not in str(pat.get("mode", "")) and pat["id"] not in _mut \
-                    and not _has_explicit_exit(st["init"]):
+                    and not _has_explicit_exit(st["init"]) \
+                    and not _reads_mutated(st["init"], _mut):
                 env2[pat["id"]] = unlet(st["init"], env2, _mut)
                 continue
             stmts.append(unlet(st, env2, _mut))
